@@ -403,6 +403,37 @@ static Result execute(const Toks &t) {
             for (auto jj = Am.ptr[i]; jj < Am.ptr[i+1]; ++jj) { long k = Am.col[jj]; Q s(0); for (long j = 0; j < n; ++j) s += res[j] * A[k][j]; if (s != 0) exact = false; if (qabs(s) > eps) tol = false; } }
         if (!samepat) r.fail("spai1: pattern of M differs from the pattern of A"); if (!tol) r.fail("spai1: normal equations violated beyond 2^-16");
         r.out = (Line() << samepat << exact << tol).get(); r.tag("spai1"); if (exact) r.tag("spai1_exact"); struct_tags(Am); r.nontrivial = n > 1 && Am.col.size() > (size_t)n;
+    } else if (op == "relax_ilupw_factors" || op == "relax_ilupw_pad" || op == "relax_ilupw_pre" || op == "relax_ilupw_post" || op == "relax_ilupw_apply") {
+        // F-grade: the REAL ilup against the model of ilup.hpp as written (Model/RelaxIlup.lean: symb_product with its marker arrays,
+        // the scatter loop, ilu0 on the padded matrix)
+        typedef amgcl::relaxation::ilup<Backend> RP; typedef amgcl::relaxation::ilu0<Backend> R0;
+        long k = c.nat(); Q w(1); Mat Am; QV f, x, tmp; if (k < 0) throw bad_input("k");
+        if (op == "relax_ilupw_factors" || op == "relax_ilupw_pad") { Am = c.mat(); c.expect_end(); if (!square_wf(Am)) throw bad_input("shape"); }
+        else if (op == "relax_ilupw_apply") apply_args(Am, f); else { w = c.rat(); sweep_args(Am, f, x, tmp); }
+        if (!sorted(Am) || !has_diag(Am)) throw bad_input("structure");
+        auto A = Am.crs(); Dense D = dense(Am); long n = Am.n; RP::params prm; prm.k = (int)k; prm.damping = w;
+        Pat P; adm_pattern("ilup", k, Am, P); Mat Pm = k == 0 ? Am : pad_to(Am, P);      // independent: dense boolean power, values of A
+        std::unique_ptr<RP> rp; bool pre_fail = false;
+        try { rp.reset(new RP(*A, prm, bprm)); } catch (const bad_input&) { throw; } catch (const std::runtime_error&) { pre_fail = true; }
+        if (op == "relax_ilupw_pad") {
+            // P is a local of the constructor: what is printed is the harness' own padded matrix; the oracle ties it to the real class:
+            // ilup(A, k) and ilu0(padded matrix) must be the same operator (or fail the same precondition)
+            auto Pc = Pm.crs(); R0::params p0; std::unique_ptr<R0> r0; bool pre0 = false;
+            try { r0.reset(new R0(*Pc, p0, bprm)); } catch (const bad_input&) { throw; } catch (const std::runtime_error&) { pre0 = true; }
+            if (pre0 != pre_fail) r.fail("ilup(A, k) and ilu0(A padded to the pattern of A^(k+1)) disagree on the precondition");
+            else if (!pre0) for (long j = 0; j < n && r.ok; ++j) { QV e(n, Q(0)); e[j] = Q(1); if (!veq(run_apply(*rp, *A, e), run_apply(*r0, *Pc, e))) r.fail("ilup(A, k) is not ilu0 of A padded to the pattern of A^(k+1)"); }
+            Line lo; lo << Pm; r.out = lo.get(); r.tag("ilupw_pad"); r.tag("ilupw" + std::to_string(k)); struct_tags(Am); r.nontrivial = n > 1 && Am.col.size() > (size_t)n; return r;
+        }
+        if (pre_fail) { r.out = "precondition"; r.tag("ilupw_precondition"); r.nontrivial = n > 1; return r; }
+        Factors F; bool okF = read_factors(*rp, *A, F);
+        if (!okF) { r.tag("ilupw_singular"); if (op == "relax_ilupw_factors") { r.out = "singular"; r.nontrivial = n > 1; return r; } }
+        Factors Ref; if (okF && !(asis_reference("ilup", k, Am, Ref) && factors_eq(Ref, F))) r.fail("ilup: factors differ from the dense reference recurrence (ILU(0) of A padded to the pattern of A^(k+1))");
+        if (okF) { bool onpat, inpat, exact; lu_flags<int>("ilup", k, Am, F, onpat, inpat, exact); if (!onpat) r.fail("ilup: (L U)_ij != a_ij on the pattern of A^(k+1)"); if (!inpat) r.fail("ilup: factor entry outside the pattern of A^(k+1)"); if (exact) r.tag("ilupw_exact"); }
+        Dense B = okF ? lu_product(F) : D;
+        if (op == "relax_ilupw_factors") { Line lo; lo << F.L << F.U << F.D; r.out = lo.get(); r.tag("ilupw_factors"); }
+        else if (op == "relax_ilupw_apply") { QV y = run_apply(*rp, *A, f); if (okF && !veq(dmv(B, y), f)) r.fail("ilup apply: (L U) y != f"); r.out = (Line() << y).get(); r.tag("ilupw_apply"); }
+        else { QV x1, t1; sweep_case(r, *rp, Am, *A, f, x, tmp, op == "relax_ilupw_pre", x1, t1); QV res = vsub(f, dmv(D, x)); if (okF && !veq(dmv(B, t1), res)) r.fail("ilup sweep: (L U) tmp != f - A x"); if (!veq(vsub(x1, x), vscale(w, t1))) r.fail("ilup sweep: x' - x != damping * tmp"); r.tag("ilupw_sweep"); }
+        r.tag("ilupw" + std::to_string(k)); struct_tags(Am); r.nontrivial = n > 1 && Am.col.size() > (size_t)n;
     } else if (op == "relax_spai1_m" || op == "relax_spai1_pre" || op == "relax_spai1_post" || op == "relax_spai1_apply") {
         // F-grade: the REAL spai1 against the faithful model Model/RelaxSpai1.lean (exact equality of M and of the sweeps; the
         // Householder QR runs with the same rational pseudo square root on both sides)
@@ -488,7 +519,7 @@ static void generate(Rng &rng, const Opts &o, std::vector<std::string> &lines) {
     const std::vector<Q> omegas = { Q::frac(18, 25), Q(1), Q::frac(2, 3), Q::frac(1, 2), Q(0), Q::frac(-1, 3) };
     const std::vector<float> his = { 1.0f, 1.1f, 1.5f }, los = { 1.0f / 30, 0.25f, 0.5f, 1.0f };
     for (long k = 0; k < N; ++k) {
-        int which = (int)rng.range(0, 25);
+        int which = (int)rng.range(0, 28);
         long n = rng.coin(1, 12) ? 1 : rng.range(2, nmax);
         int fam = (int)rng.range(0, 7);
         Mat A = gen_matrix(rng, n, fam); n = A.n;
@@ -540,6 +571,12 @@ static void generate(Rng &rng, const Opts &o, std::vector<std::string> &lines) {
             if (!ok) { F.L = from_rows(n, n, std::vector<std::vector<std::pair<long,Q>>>(n)); F.U = F.L; F.D.assign(n, Q(1)); }    // reported by the oracle when executed
             l << "relax_lu_check" << kind << kk << A << F.L << F.U << F.D;
         }
+        else if (which >= 26) {       // F-grade: ILUP as written (Model/RelaxIlup.lean): k = 0..3, families with a stored diagonal, sorted rows
+            if (n > 7) n = rng.range(2, 7); int fam2 = (int)rng.range(0, 7); A = gen_matrix(rng, n, fam2); n = A.n; x = gen_vec(rng, n); f = rng.coin(1, 4) ? mat_vec(A, x) : gen_vec(rng, n); tmp = gen_vec(rng, n);
+            long kk = rng.range(0, 3); int sub = (int)rng.range(0, 6);
+            if (sub <= 1) l << "relax_ilupw_factors" << kk << A; else if (sub == 2) l << "relax_ilupw_pad" << kk << A;
+            else if (sub <= 4) l << (sub == 3 ? "relax_ilupw_pre" : "relax_ilupw_post") << kk << rng.pick(omegas) << A << f << x << tmp; else l << "relax_ilupw_apply" << kk << A << f;
+        }
         else if (which >= 23) {       // F-grade: SPAI-1 against the faithful model (Model/RelaxSpai1.lean): all families, unsorted rows, duplicates,
                                       // a missing diagonal (local problems with fewer rows than columns: the wide branch of QR::solve)
             if (n > 6) n = rng.range(2, 6); A = gen_matrix(rng, n, (int)rng.range(0, 7)); n = A.n;
@@ -581,6 +618,8 @@ static void generate(Rng &rng, const Opts &o, std::vector<std::string> &lines) {
     lines.push_back("relax_ilu0_apply 2 2 2 1 1 0 1 1 1 1 2 1 1");                  // unsorted row
     lines.push_back("relax_ilu0_apply 2 2 1 0 1 1 0 1 2 1 1");                      // last row has no entry at or right of the diagonal
     lines.push_back("relax_spai0_pre 2 3 1 0 1 1 1 1 2 1 1 2 1 1 2 0 0");           // not square
+    lines.push_back("relax_ilupw_factors 1 2 2 2 1 1 0 1 1 1 1");                   // unsorted row
+    lines.push_back("relax_ilupw_pad 1 2 2 1 1 1 1 1 1");                           // row 0 stores no diagonal
     lines.push_back("relax_spai1_m 2 2 0 1 1 2");                                   // empty row
     lines.push_back("relax_spai1_apply 2 2 1 0 1 1 1 1 1 1");                       // vector size does not fit
 }
